@@ -225,7 +225,7 @@ def run(chk, facts, tier, only=None):
             n += 1
             chk.analysed(b.key)
             for bb, t, cal in b.call_sites():
-                if cal and re.search(r"hash::(map::HashMap|set::HashSet)<.*>::(iter|keys|values|into_iter|drain|iter_mut|values_mut|into_keys|into_values)$", cal) \
+                if cal and re.search(r"hash::(map::HashMap|set::HashSet)(::)?<.*>::(iter|keys|values|into_iter|drain|iter_mut|values_mut|into_keys|into_values|retain|extract_if)$", cal) \
                         or (cal and "IntoIterator" in cal and any("HashMap" in (g or "") or "HashSet" in (g or "")
                                                                    for g in ((t["f"].get("k") or {}).get("ga") or []))):
                     if b.key.endswith("annotate_type_with_depth"):
